@@ -13,6 +13,8 @@ var e2Props = map[string]*simcheck.Prop{
 	"C08": {ID: "C08", Gen: c08Gen, New: newHistScenario, Exec: c08Exec, Simplify: histSimplify},
 	"C03": {ID: "C03", Gen: c03Gen, New: newHistScenario, Exec: c03Exec, Simplify: histSimplify},
 	"C20": {ID: "C20", Gen: e3Gen, New: func() any { return &e3Scenario{} }, Exec: e3Exec, Simplify: e3Simplify},
+	"C13": {ID: "C13", Gen: c13Gen, New: newHistScenario, Exec: c13Exec, Simplify: histSimplify},
+	"C14": {ID: "C14", Gen: c14Gen, New: newHistScenario, Exec: c14Exec, Simplify: histSimplify},
 	"C06": {ID: "C06", Gen: c06Gen, New: newHistScenario, Exec: c06Exec, Simplify: loadSimplify},
 }
 
